@@ -9,6 +9,8 @@ From Coq.Strings Require Import Byte.
 From GM Require Import Codec.Packet Codec.WF Codec.Dec Codec.RefDecode.
 From GM Require Import Codec.DecProofsBase Codec.DecProofsSafe Codec.DecProofsLocal
      Codec.DecProofsSpec3 Codec.DecProofsFwd Codec.DecProofsDetect.
+From GM Require Codec.DetectEquiv Codec.ReadSpec Stream.Stream Stream.StreamProofs Stream.StreamCodec
+     Stream.ReadSpecProofs.
 Import ListNotations.
 Open Scope N_scope.
 
@@ -107,6 +109,28 @@ Theorem C02_detect_agrees_header : forall bs ty total flags rl,
 Proof. exact detect_agrees_header. Qed.
 Print Assumptions C02_detect_agrees_header.
 
+(* what packet.Decoder.Read makes of DetectPacket's answer (it only tests `packetLength <= 0`):
+   a positive length with its type, or "need more" — on ALL byte lists this view of detect_go is
+   Stream.detect_impl, the arithmetic statement of DetectPacket (Uvarint by sums, unsigned total
+   modulo 2^64 taken as positive below 2^63).  Judged on the implementation as clause detect_view. *)
+Theorem C02_detect_view : forall bs,
+  Stream.detect_impl bs = DetectEquiv.abs_det (detect_go bs).
+Proof. exact DetectEquiv.detect_equiv. Qed.
+Print Assumptions C02_detect_view.
+
+(* ---- observed at packet.Decoder.Read: one Read of the stream decoder (model Stream.dec_read with
+   detect_impl and Type.New + decode_go), on every chunked byte stream, with every read limit and
+   every source ending, returns exactly what ReadSpec.read_spec says: the packet iff the reference
+   decoder accepts the frame the fixed header declares (same fields, same byte range), and otherwise
+   the right error (EOF / unexpected EOF / detection overflow / read limit / invalid type / decode
+   error), leaving exactly the bytes behind the frame.  Judged on the implementation as clause
+   stream_read (first Read and the Read after a packet). ---- *)
+Theorem C02_stream_read : forall lim cs e,
+  StreamProofs.view (Stream.dec_read Stream.detect_impl StreamCodec.codec_decode lim (Stream.dinit cs e))
+  = ReadSpec.read_spec lim (concat cs) e.
+Proof. exact ReadSpecProofs.read_chunked_is_spec. Qed.
+Print Assumptions C02_stream_read.
+
 (* ---- non-vacuity ---- *)
 Definition bs_of (l : list N) : bytes :=
   map (fun n => match Byte.of_N n with Some b => b | None => x00 end) l.
@@ -162,6 +186,18 @@ Example C02_nonvacuous_detect :
     | _, _ => false
     end) samples = true.
 Proof. vm_compute. reflexivity. Qed.
+
+(* read_spec on a stream of two packets, a truncated packet, a 5-byte remaining length, and a
+   4-byte (non-minimal) remaining length that a decoder peeking only 4 header bytes would miss *)
+Example C02_nonvacuous_stream :
+  (let '(r, al, pk, rest) := ReadSpec.read_spec 0 (bs_of [48;3;0;1;97; 192;0]) Stream.SEof in
+   match r with Stream.RPacket fr (Publish _ m _) => (m_topic m, al, pk, rest) = (bs_of [97], Some 5, 2, bs_of [192;0]) | _ => False end) /\
+  ReadSpec.read_spec 0 (bs_of [48;3;0;1]) Stream.SEof = (Stream.RFail Stream.EUnexpectedEof, Some 5, 2, []) /\
+  ReadSpec.read_spec 0 (bs_of [192;128;128;128;128;0]) Stream.SEof
+    = (Stream.RFail Stream.EDetectionOverflow, None, 5, bs_of [192;128;128;128;128;0]) /\
+  ReadSpec.read_spec 0 (bs_of [192;128;128;128;0]) Stream.SEof = (Stream.RPacket (bs_of [192;128;128;128;0]) Pingreq, Some 5, 5, []) /\
+  ReadSpec.read_spec 4 (bs_of [48;3;0;1;97]) Stream.SEof = (Stream.RFail Stream.EReadLimit, None, 2, bs_of [48;3;0;1;97]).
+Proof. vm_compute. repeat split; reflexivity. Qed.
 
 (* rejections: QoS 3, packet id 0, empty topic, reserved flags, wrong remaining length *)
 Example C02_rejects :
